@@ -196,6 +196,12 @@ def shapes(t, sd):
     for order in ("same_first", "other_first", "interleaved"):
         spec = {"cps": [{"name": "p1", "type": U, "bins": base_bins["arr"]}]}
         items.append(dict(spec=spec, other_spec=other, ninst=2, nsamples=2, shape="param shapes %s" % order, create_order=order))
+    # variants whose bin arrays cover the same values with a different NUMBER of bins
+    for na, nb in ((2, 4), (4, 2), (2, None), (3, 2)):
+        for order in ("same_first", "other_first"):
+            spec = {"cps": [{"name": "p1", "type": U, "bins": [["x", "array", na, [[0, 7]]]]}]}
+            oth = {"cps": [{"name": "p1", "type": U, "bins": [["x", "array", nb, [[0, 7]]]]}]}
+            items.append(dict(spec=spec, other_spec=oth, ninst=2, nsamples=2, shape="bin arrays of %s and %s bins, %s" % (na, nb, order), create_order=order))
     # shapes that differ in one coverpoint only (first / last of two, middle of three)
     cpa = {"name": "p1", "type": ["u", 2], "bins": [["lo", "bin", [[0, 1]]], ["hi", "bin", [[2, 3]]]]}
     cpa2 = {"name": "p1", "type": ["u", 2], "bins": [["lo", "bin", [[0, 1]]], ["hi", "array", None, [[2, 3]]]]}
